@@ -43,7 +43,7 @@ def config_writers(ctx, rid: str) -> None:
         for w in attr_writes(f):
             if w.attr == CONFIG_ATTR:
                 writes.append(w)
-    c.floor(rid, "writes of the configuration set", len(writes), 14)
+    c.floor(rid, "writes of the configuration set", len(writes), 8)
     res = ctx.r
     for w in writes:
         f = w.func
@@ -381,7 +381,7 @@ def macrostep_in_consumer(ctx, rid: str) -> None:
                  f"{tgt[0].name}() runs with the re-entrancy flag held" if ok else
                  f"{tgt[0].name}() is called with _is_processing released: an action that raises/sends during it is "
                  f"processed re-entrantly, inside the unfinished macrostep", s.call)
-    c.floor(rid, "sync processing call sites outside processing functions", n_sites, 4)
+    c.floor(rid, "sync processing call sites outside processing functions", n_sites, 2)
     # ---- async
     r = roles(ctx, "Interpreter")
     # consumer region: the drain loop plus helpers whose every caller is in the region
@@ -419,7 +419,7 @@ def macrostep_in_consumer(ctx, rid: str) -> None:
                  f"{tgt[0].name}() runs before any consumer task exists" if not after_creation else
                  f"{tgt[0].name}() is awaited after create_task({r.drain.name}()) on the same path: the consumer "
                  f"can dequeue and run a second macrostep at any await inside it (two interleaved macrosteps)", s.call)
-    c.floor(rid, "async processing call sites outside the consumer", n_sites, 2)
+    c.floor(rid, "async processing call sites outside the consumer", n_sites, 1)
 
 
 def snapshot_ancestor_closure(ctx, rid: str) -> None:
@@ -429,7 +429,7 @@ def snapshot_ancestor_closure(ctx, rid: str) -> None:
     f = ctx.p.method("BaseInterpreter", "from_snapshot")
     g = cfg_of(f.node)
     adds = [w for w in attr_writes(f) if w.attr == CONFIG_ATTR and w.op == "call:add"]
-    c.floor(rid, "configuration adds in from_snapshot", len(adds), 2)
+    c.floor(rid, "configuration adds in from_snapshot", len(adds), 1)
     # locate the ancestor walk: a while loop whose body re-binds its variable to .parent and adds it
     walks = []
     for n in own_nodes(f.node):
@@ -440,7 +440,12 @@ def snapshot_ancestor_closure(ctx, rid: str) -> None:
             adding = [w for w in adds if any(w.node is x for s in n.body for x in ast.walk(s))]
             if rebinding and adding:
                 walks.append((n, adding))
-    c.need(walks, "ancestor walk in from_snapshot")
+    if not walks:
+        for w in adds:
+            c.ob(rid, False, f, "add(node)->parent-walk",
+                 "from_snapshot adds the persisted states but has no parent walk that adds their ancestors: a snapshot listing only "
+                 "leaf ids restores a configuration whose ancestors are inactive", w.node)
+        return
     walk, walk_adds = walks[0]
     wt = g.nodes_of(walk.test)
     for w in adds:
@@ -639,3 +644,21 @@ def _is_registry_expr(f: FuncInfo, e: ast.AST) -> bool:
     if isinstance(e, ast.Call) and "_system_registry" in norm(e.func):
         return True
     return False
+
+
+def config_op_nodes(ctx, view: str, f: FuncInfo, ops: Set[str]) -> List[int]:
+    """CFG nodes of *f* that perform one of *ops* on the configuration set, directly or through a
+    private helper whose own body performs it (a wrapper counts as the operation)."""
+    out: List[int] = []
+    for w in attr_writes(f):
+        if w.attr == CONFIG_ATTR and w.op in ops:
+            out.extend(cfg_node_of(f, w.node))
+    for s in ctx.r.callsites(f, view):
+        if s.recv != "self":
+            continue
+        for t in s.targets:
+            if t.qualname == f.qualname:
+                continue
+            if any(w.attr == CONFIG_ATTR and w.op in ops and w.base == "self" for w in attr_writes(t)):
+                out.extend(cfg_node_of(f, s.call))
+    return out
